@@ -219,6 +219,7 @@ CHECKS['C11'] = (
     'storage; reuses C08\'s applyStd under WFApply; fix 11e84e2: .zdebug sections were relocated before decompression), view_unrelocated, reloc_rejected_rejects_file; view_composed_links '
     '(debug link -> debug file -> its supplementary link, each file in any encoding); the chunked CRC fold equals the one-shot CRC for every chunk size under the streaming law, which the Spec CRC-32 '
     'satisfies (file_crc32_spec). Correspondence-only: whole-file symbol tables carrying more than st_value, sh_link not designating a symbol table, phantom bytes with relocations, entries outside WFApply; '
+    'zlib chunk independence and the invariance of DIE/line/CFI dumps through the DWARF layers are checked empirically.',
     'DESIGN.md §6 C11')
 
 NOT_YET = {
